@@ -17,7 +17,9 @@ from . import common
 ID = "C10"
 NEEDS_MODEL = True
 LEVEL = "exploration"
-N = {"quick": 260, "thorough": 5000}          # specs
+N = {"quick": 480, "thorough": 6000}          # specs
+CLASSES = ["plain", "shape", "occupancy", "flatten", "affine", "cascade", "spacetime", "metrics",
+           "occupancy2", "metrics", "occupancy", "double-flatten"]
 ORDERS = {"quick": 4, "thorough": 8}           # random tie-breaks per spec (+1 real sort)
 TECHNIQUE = ("runtime monitoring: recording wrapper on the FlowGraph the translator uses + seeded "
              "random topological tie-breaks (schedule perturbation); offline order checker over "
@@ -106,7 +108,7 @@ def shard(tier, seed, shard, nshards):
     st = common.Stats()
     n = N[tier] // nshards
     for i in range(n):
-        it = corpus.item(ID, seed, shard, i)
+        it = corpus.item(ID, seed, shard, i, CLASSES)
         if it is None:
             continue
         cls, spec, mode, ext, rnd = it
@@ -150,6 +152,12 @@ def finalize(results, counters, tier, seed):
         inc.append("too few graphs checked: %r" % mon)
     if mon.get("hoisted-nodes", 0) == 0:
         inc.append("no hoisted node was ever observed")
+    miss = [t for t in ("occ-leader-per-level", "occ-with-follower", "flatten-occupancy",
+                        "double-flatten", "m-merger-static", "m-merger-dynamic", "m-eager",
+                        "st-coord", "cascade3", "partitioned")
+            if counters.get("strata_ok", {}).get(t, 0) == 0]
+    if miss:
+        inc.append("graph shapes never compiled and executed: %r" % miss)
     cov = {"rule": "shared corpus specs x (the real sort + %d seeded random topological "
                    "tie-breaks); each (spec, order): order checker on the recorded graph, then the "
                    "real translator's output under that order is scope-checked, tree-compared and "
